@@ -931,3 +931,38 @@ package core
 //@   loop 1 invariant refs: forall k :: 0 <= k && k < len(rangechan) ==> rangechan[k].Ref != nil
 //@   loop 1 invariant elems: forall k :: 0 <= k && k < rd(rangechan) ==> tCurrent(out[k]) == rangechan[k].Edge && (tSignal(out[k]) <==> tSignal(rangechan[k].Ref))
 //@   ensures closed: closed(out)
+
+// ---- C19: the type aggregation ------------------------------------------------------
+// type(field): the whole input is consumed; afterwards every emitted row carries the
+// aggregation's name, a type name that occurs in the input, and as value exactly the
+// number of input rows whose field value has that type name (tcnt, defined below by the
+// per-row type name ftype(lookup(row, field))). Which rows come out in which order is
+// the map's iteration order (not stated); that every occurring type name gets a row is
+// not stated either (no count of the rows).
+//@ func (*aggregate).Process$6
+//@   vars a aChans out fa fieldTypes t val tname term tcount
+//@   property C19
+//@   option prelude=trav,json
+//@   option load=gdbi,gripql,jsonpath
+//@   let src = aChans[a.Name]
+//@   let fld = ptr(a.Aggregation, "*gripql.Aggregate_Type").Type.Field
+//@   requires fresh: a != nil && aChans != nil && has(aChans, a.Name) && src != nil && out != nil && src != out && rd(src) == 0 && len(src) >= 0 && wr(out) == 0 && !closed(out)
+//@   requires arm: dyn(a.Aggregation, "*gripql.Aggregate_Type") && ptr(a.Aggregation, "*gripql.Aggregate_Type") != nil && ptr(a.Aggregation, "*gripql.Aggregate_Type").Type != nil
+//@   requires items: forall j :: 0 <= j && j < len(src) ==> src[j] != nil
+//@   axiom t0: forall n:Str :: tcnt(n, 0) == 0
+//@   axiom tS: forall n:Str, k :: 0 <= k ==> tcnt(n, k + 1) == tcnt(n, k) + ite(ftype(pathLookup(src[k], fld)) == n, 1, 0)
+//@   loop 1 invariant pos: 0 <= rd(src) && rd(src) <= len(src) && wr(out) == 0 && !closed(out) && fieldTypes != nil
+//@   loop 1 invariant counts: forall n:Str :: tcnt(n, rd(src)) >= 0 && (has(fieldTypes, n) <==> tcnt(n, rd(src)) > 0) && (has(fieldTypes, n) ==> fieldTypes[n] == tcnt(n, rd(src)))
+//@   loop 2 invariant quiet: !closed(out) && rd(src) == len(src) && fieldTypes != nil
+//@   loop 2 invariant counts: forall n:Str :: (has(fieldTypes, n) <==> tcnt(n, len(src)) > 0) && (has(fieldTypes, n) ==> fieldTypes[n] == tcnt(n, len(src)))
+//@   loop 2 invariant rows: forall m :: 0 <= m && m < wr(out) ==> dyn(out[m], "*gdbi.BaseTraveler") && ptr(out[m], "*gdbi.BaseTraveler") > 0 && ptr(out[m], "*gdbi.BaseTraveler") < alloc &&
+//@       ptr(out[m], "*gdbi.BaseTraveler").Aggregation > 0 && ptr(out[m], "*gdbi.BaseTraveler").Aggregation < alloc &&
+//@       ptr(out[m], "*gdbi.BaseTraveler").Aggregation.Name == a.Name && isAStr(ptr(out[m], "*gdbi.BaseTraveler").Aggregation.Key) &&
+//@       tcnt(astr(ptr(out[m], "*gdbi.BaseTraveler").Aggregation.Key), len(src)) > 0 &&
+//@       same(ptr(out[m], "*gdbi.BaseTraveler").Aggregation.Value, i2f(tcnt(astr(ptr(out[m], "*gdbi.BaseTraveler").Aggregation.Key), len(src))))
+//@   ensures drained: rd(src) == len(src)
+//@   ensures rows: forall m :: 0 <= m && m < wr(out) ==> dyn(out[m], "*gdbi.BaseTraveler") && ptr(out[m], "*gdbi.BaseTraveler") != nil &&
+//@       ptr(out[m], "*gdbi.BaseTraveler").Aggregation != nil &&
+//@       ptr(out[m], "*gdbi.BaseTraveler").Aggregation.Name == a.Name && isAStr(ptr(out[m], "*gdbi.BaseTraveler").Aggregation.Key) &&
+//@       tcnt(astr(ptr(out[m], "*gdbi.BaseTraveler").Aggregation.Key), len(src)) > 0 &&
+//@       same(ptr(out[m], "*gdbi.BaseTraveler").Aggregation.Value, i2f(tcnt(astr(ptr(out[m], "*gdbi.BaseTraveler").Aggregation.Key), len(src))))
